@@ -205,23 +205,34 @@ Theorem C16_coordinate_sources : forall nodes ids,
 Proof. exact way_to_line_sources. Qed.
 Print Assumptions C16_coordinate_sources.
 
-(* 7. holes_assigned.  FULL STATEMENT (not proved): with simple, pairwise disjoint, non-nested
-      outers and every hole strictly inside one outer, folding add_to_multipolygon over the holes
-      puts each hole into the polygon of its own outer and no other.
-      PROVED (partial): (a) whenever ray casting answers "inside outer k" and "not inside any
-      other outer", the hole is appended to polygon k and nothing else changes, whatever the
-      order of the polygons; later holes are tested against the same outer rings;
-      (b) ray casting answers "not inside" for every ring whose vertices lie outside the bounding
-      box of the outer (the situation of outers in disjoint grid cells).
-      MISSING: ray casting answers "inside" for a ring strictly inside a simple outer (Jordan
-      curve side); the harness compares polygonContains with the exact rational even-odd rule. *)
-Theorem C16_holes_assigned_partial : forall incl mp ring k poly,
+(* 7. holes_assigned.  For a scene whose holes are contained in their outers as the even-odd rule
+      defines it and avoid the bounding boxes of the other outers ([contained], exactly what the
+      scene generator asserts with exact integer arithmetic), whose outer lines / hole lines are
+      the rings written from any start vertex in any direction: folding addToMultiPolygon over
+      the hole lines IN ANY ORDER puts every hole into the polygon of its own outer and into no
+      other, and creates no extra hole.  (That an odd crossing number is what "strictly inside a
+      simple polygon" means geometrically - Jordan - is not proved: 7c shows the code computes
+      exactly that rule.) *)
+Theorem C16_holes_assigned : forall incl (sc' : gscene) orings rhs' hlines,
+  NoDup (concat (s_outers sc')) -> NoDup (concat (s_holes sc')) ->
+  Forall (fun r => (3 <= length r)%nat) (s_outers sc' ++ s_holes sc') ->
+  contained sc' ->
+  Forall2 (fun oh ol => ccw_line (fst oh) ol) sc' orings ->
+  Forall2 cw_line rhs' hlines -> Permutation rhs' (s_holes sc') ->
+  let mp := add_all incl (map (fun r => [r]) orings) hlines in
+  Forall2 poly_recovered sc' mp /\
+  length (concat (map (@tl line) mp)) = length (s_holes sc').
+Proof. exact assign_core. Qed.
+Print Assumptions C16_holes_assigned.
+
+(* one step, for arbitrary input: the hole goes where ray casting says *)
+Theorem C16_hole_goes_where_ray_casting_says : forall incl mp ring k poly,
   nth_error mp k = Some poly ->
   polygon_contains (hd [] poly) ring = true ->
   (forall j p, j <> k -> nth_error mp j = Some p -> polygon_contains (hd [] p) ring = false) ->
   add_to_multipolygon incl mp ring = firstn k mp ++ (poly ++ [ring]) :: skipn (S k) mp.
 Proof. exact holes_assigned. Qed.
-Print Assumptions C16_holes_assigned_partial.
+Print Assumptions C16_hole_goes_where_ray_casting_says.
 
 Theorem C16_contains_outside_bbox : forall outer r,
   (forall p, In p r -> outside_bbox outer p) -> polygon_contains outer r = false.
@@ -342,7 +353,7 @@ Example ex_holes_assigned :
   add_to_multipolygon false ex_mp ex_hole =
   [[[(1,1); (5,1); (5,5); (1,5); (1,1)]]; [[(10,1); (20,1); (20,9); (10,9); (10,1)]; ex_hole]].
 Proof.
-  apply (C16_holes_assigned_partial false ex_mp ex_hole 1 [[(10,1); (20,1); (20,9); (10,9); (10,1)]]).
+  apply (C16_hole_goes_where_ray_casting_says false ex_mp ex_hole 1 [[(10,1); (20,1); (20,9); (10,9); (10,1)]]).
   - reflexivity.
   - vm_compute. reflexivity.
   - intros [|[|j]] p Hj Hn; simpl in Hn.
